@@ -16,10 +16,13 @@ through its left-spine / forest decomposition):
     in the `eight_above = 0` mode the last two kernels have exponent 2 and 1 (order 4, 2), exactly n steps.
   * per level: every row of `strategies` drives both modes in bounds (`L*_theta_rows_sound`), and the callers'
     row index `TORSION_PLUS_EVEN_POWER - length (+2)` is inside the table exactly for the stated range.
+  * `balanced_rec_sound`, `balanced_stack_bound`, `balanced_chain_sound`: the balanced recursion for every length —
+    in particular the stack `10·log2(n−3)+1` of `theta_chain_comput_balanced` is never exceeded.
 That the theta formulas compute the (2,2)-isogeny with the given kernel (Kani / theta theory) is not formalised:
 partial (see notes/C12.md).
 -/
 import SqiProofs.ThetaChain
+import SqiProofs.ThetaBalanced
 import SqiProps.C18
 
 set_option maxRecDepth 100000
@@ -57,6 +60,35 @@ theorem short_chain_faults :
   · simp [chain, Params.m, Params.adj, prelude, phase1, setLenList, buildPts, glueStep, forLoop, finalSteps, initSt,
       idxOK, St.emit, St.fail, Params.kexp]
   · simp [chain, St.fail, initSt]
+
+/-! ## the balanced variant `theta_chain_comput_balanced` / `theta_chain_comput_rec` -/
+
+open SqiProofs.ThetaBalanced in
+/-- **Soundness of the balanced recursion** (all lengths, any stack with enough room): see `rec_sound`. -/
+theorem balanced_rec_sound (cap total fuel len index r : Nat) (stack : List Nat)
+    (hl : len ≤ fuel) (hr : r = len + 2) (hn : stack.length + need fuel len ≤ cap) :
+    (rec cap total fuel len index r stack).2 = stack.map (· - len) ∧
+    (rec cap total fuel len index r stack).1.all (bevOk cap) = true ∧
+    stepIdx (rec cap total fuel len index r stack).1 = List.range' index len :=
+  rec_sound cap total fuel len index r stack hl hr hn
+
+open SqiProofs.ThetaBalanced in
+/-- **The stack bound of `theta_chain_comput_balanced` holds for every length**: the recursion on `len` steps needs at
+    most `10·⌊log2 len⌋` slots above its entry level (in fact ≤ 2·⌊log2 len⌋ + 1, from (3/2)^need ≤ len), so with the
+    entry level 1 every write `P1[stacklen]` has `stacklen < 10·log2(n−3) + 1` = the VLA size. -/
+theorem balanced_stack_bound (fuel len : Nat) (h : 1 ≤ len) :
+    need fuel len ≤ 2 * len.log2 + 1 ∧ need fuel len ≤ 10 * len.log2 ∨ len = 1 := by
+  by_cases h1 : len = 1
+  · exact Or.inr h1
+  · exact Or.inl ⟨need_le_two_log fuel len h, need_le fuel len h⟩
+
+open SqiProofs.ThetaBalanced in
+/-- **`theta_chain_comput_balanced`, middle part, every n ≥ 4**: no stack overflow, exactly the steps 0 … n−4 in order,
+    every kernel pair of exponent 3 (order 8), the carried pair ends with exponent 4. -/
+theorem balanced_chain_sound (n : Nat) (hn : 4 ≤ n) :
+    (balanced n).2 = [4] ∧ (balanced n).1.all (bevOk (balancedCap n)) = true ∧
+    stepIdx (balanced n).1 = List.range' 0 (n - 3) :=
+  balanced_sound n hn
 
 /-! ## per level: the real tables -/
 
